@@ -99,6 +99,16 @@ def matches_known(finding, prop, witness):
     return True
 
 
+def replay_witness():
+    """The witness of a replay file (./check <id> --replay <file>), if any."""
+    path = os.environ.get("VERIF_REPLAY")
+    if not path:
+        return None
+    with open(path) as f:
+        d = json.load(f)
+    return d.get("witness", d)
+
+
 class Report:
     """Collects what a check run covered and found, writes the evidence file and
     the VIOLATION / KNOWN-FINDING lines."""
